@@ -90,6 +90,7 @@ theorem open_safe {cfg : Cfg} {T : List Tx} {fs : FS} (hsync : cfg.syncSlot = tr
     (hpj : fs.pj = []) (hq : WalQuiet fs) (hrep : Rep T fs.pd fs.wf) :
     failOf (openA cfg fs.pv fs.wf) = none ∧
     SafeAlong (SafeFS [T]) fs (ioSteps (openA cfg fs.pv fs.wf)) ∧
+    (fs.steps (ioSteps (openA cfg fs.pv fs.wf))).wf = fs.wf ∧
     ∃ cs c, InvOpen T (fs.steps (ioSteps (openA cfg fs.pv fs.wf)))
       ((memUpds (openA cfg fs.pv fs.wf)).foldl applyUpd {}) cs c ∧
       ((memUpds (openA cfg fs.pv fs.wf)).foldl applyUpd {}).tailChecked = false := by
@@ -152,9 +153,9 @@ theorem open_safe {cfg : Cfg} {T : List Tx} {fs : FS} (hsync : cfg.syncSlot = tr
     simp only [List.cons_append, List.nil_append, memUpds]
     rw [memUpds_append_noFail _ _ nf]
     simp [memUpds]
-  refine ⟨hfail, by rw [hio]; exact sa, cs, c, ?_⟩
-  rw [hio, hmu]
   obtain ⟨hwF, hdF, hrF⟩ := steps_pager_wal _ hpg fs
+  refine ⟨hfail, by rw [hio]; exact sa, by rw [hio]; exact hwF, cs, c, ?_⟩
+  rw [hio, hmu]
   generalize hfsF : fs.steps (ioSteps (nodesA cfg { pm := fs.pd.hdr, len := fs.pd.len }
     { start := fs.pd.hdr.i2eStart, len := fs.pd.hdr.i2eLen } ((allNodes T).drop fs.pd.hdr.i2eLen)).1) = fsF at hBF hSF hwF hdF hrF
   have hlenN : fs.pd.hdr.i2eLen + ((allNodes T).drop fs.pd.hdr.i2eLen).length = (allNodes T).length := by
